@@ -157,7 +157,7 @@ def make_expression_grammar(g: Grammar, gx):
     g.prod("postfix-expression",
            [T("LPAREN"), N("type-name"), T("RPAREN"), T("LBRACE"), N("initializer-list"), T("RBRACE"),
             Star(N("postfix-suffix"))],
-           build=lambda v, gx: fold_suffixes(A.CompoundLiteral(v[1], v[4], None), v[6]),
+           build=lambda v, gx: fold_suffixes(A.CompoundLiteral(v[1], v[4], ANY_INSIDE), v[6]),
            label="postfix-expression: ( type-name ) { initializer-list ,? } suffix*")
     # a suffix is a function from the expression built so far to the new node (left nesting)
     sufval = lambda gx, m: (lambda e: gx.Opaque(f"{m.nt}#{m.mid}", gx.Coord("f.c", 900 + m.mid, 1)))  # noqa: E731
